@@ -417,6 +417,8 @@ type FuncContract struct {
 	NoOverflow bool
 	MayPanic   bool // callers must not rely on absence of panics
 	NoPanicCheck bool // do not emit nopanic obligations (functional contract only)
+	Inducts    []*SpecFunc // induct name(vars..., n): P  -- proved by induction on n from 0, then assumed
+	RecSpecs   []*SpecFunc // function-local recursive spec functions over the entry state
 	MakeBound  *Clause  // every make() in the body allocates at most this many elements
 	Excuses    []Clause // known-finding excuses keyed by obligation label
 	File       string
@@ -463,7 +465,7 @@ type ContractFile struct {
 var clauseKW = map[string]bool{"func": true, "spec": true, "uf": true, "lemma": true, "axiom": true,
 	"props": true, "requires": true, "ensures": true, "panics": true, "modifies": true, "loop": true,
 	"inline": true, "assumed": true, "pure": true, "nooverflow": true, "maypanic": true, "nopaniccheck": true,
-	"split": true, "excuse": true, "makebound": true}
+	"split": true, "excuse": true, "makebound": true, "recspec": true, "induct": true}
 
 var labelRe = regexp.MustCompile(`^([A-Za-z_][A-Za-z0-9_]*):\s+(.*)$`)
 
@@ -596,6 +598,38 @@ func parseContractFile(path, pkg string) (*ContractFile, error) {
 				return nil, fmt.Errorf("%s: clause %q outside func", pos, kw)
 			}
 			switch kw {
+			case "recspec":
+				m := regexp.MustCompile(`^([A-Za-z_][A-Za-z0-9_]*)\s*\(([^)]*)\)\s*=\s*(.*)$`).FindStringSubmatch(rest)
+				if m == nil {
+					return nil, fmt.Errorf("%s: bad recspec declaration", pos)
+				}
+				var params []string
+				for _, p := range strings.Split(m[2], ",") {
+					if p = strings.TrimSpace(p); p != "" {
+						params = append(params, p)
+					}
+				}
+				e, err := parseExpr(m[3], pos)
+				if err != nil {
+					return nil, err
+				}
+				cur.RecSpecs = append(cur.RecSpecs, &SpecFunc{Name: m[1], Params: params, Body: e, Pos: pos})
+			case "induct":
+				m := regexp.MustCompile(`^([A-Za-z_][A-Za-z0-9_]*)\s*\(([^)]*)\)\s*:\s*(.*)$`).FindStringSubmatch(rest)
+				if m == nil {
+					return nil, fmt.Errorf("%s: bad induct declaration", pos)
+				}
+				var params []string
+				for _, p := range strings.Split(m[2], ",") {
+					if p = strings.TrimSpace(p); p != "" {
+						params = append(params, p)
+					}
+				}
+				e, err := parseExpr(m[3], pos)
+				if err != nil {
+					return nil, err
+				}
+				cur.Inducts = append(cur.Inducts, &SpecFunc{Name: m[1], Params: params, Body: e, Pos: pos})
 			case "makebound":
 				c, err := mkClause(rest, ll.line)
 				if err != nil {
